@@ -51,6 +51,13 @@ type Spec struct {
 	SkipCopy  bool
 	Wrap      string // none | wrapErrors | wrapErrorsUsing
 	KeyLeaf   bool
+	// swarm-style per-world knobs
+	W          [9]int // weights: leaf, basic, nbasic, struct, ptr, slice, map, ustruct, ref
+	ULeafPct   int    // C07: chance that a field of an unnamed struct is a fallible leaf
+	UFieldsMax int
+	// SkipCopyMode (C04): none | converter | methods (method-level setting on a subset)
+	SkipCopyMode string
+	MethodSkip   map[string]bool
 	PtrRoot   map[int]bool
 	nextID    int
 	rng       *rand.Rand
@@ -65,8 +72,26 @@ func NewSpec(seed uint64, prop string) *Spec {
 		rng: rand.New(rand.NewPCG(seed, 0x5eed)), maxDepth: 4}
 	r := s.rng
 	s.Format = []string{"struct", "struct", "function", "variables"}[r.IntN(4)]
+	base := [9]int{0, 20, 6, 16, 12, 12, 10, 3, 3}
+	if prop == "C07" {
+		base[0] = 18
+	}
+	mult := []int{1, 2, 2, 2, 4, 8}
+	for i := range base {
+		s.W[i] = base[i] * mult[r.IntN(len(mult))]
+	}
+	s.ULeafPct = []int{20, 50, 80}[r.IntN(3)]
+	s.UFieldsMax = 2 + r.IntN(3)
+	s.maxDepth = 3 + r.IntN(3)
+	s.SkipCopyMode = "none"
 	if prop == "C04" {
-		s.SkipCopy = r.IntN(5) == 0
+		switch r.IntN(6) {
+		case 0:
+			s.SkipCopyMode = "converter"
+			s.SkipCopy = true
+		case 1, 2:
+			s.SkipCopyMode = "methods"
+		}
 	} else {
 		s.Wrap = []string{"none", "wrapErrors", "wrapErrorsUsing"}[r.IntN(3)]
 	}
@@ -76,6 +101,12 @@ func NewSpec(seed uint64, prop string) *Spec {
 		root := s.genStruct(0)
 		s.Roots = append(s.Roots, root)
 		s.PtrRoot[root.ID] = r.IntN(3) == 0
+	}
+	s.MethodSkip = map[string]bool{}
+	if s.SkipCopyMode == "methods" {
+		for _, m := range s.methods(false) {
+			s.MethodSkip[m.Name] = r.IntN(2) == 0
+		}
 	}
 	if prop == "C07" && len(s.Leaves) == 0 {
 		// make sure there is at least one fallible position
@@ -147,31 +178,43 @@ func (s *Spec) gen(depth int, parent *node) *node {
 		}
 		return &node{Kind: "basic", Basic: basics[r.IntN(len(basics))]}
 	}
-	x := r.IntN(100)
-	switch {
-	case s.Prop == "C07" && x < 18:
+	total := 0
+	for _, w := range s.W {
+		total += w
+	}
+	x := r.IntN(total)
+	kind := 0
+	for i, w := range s.W {
+		if x < w {
+			kind = i
+			break
+		}
+		x -= w
+	}
+	switch kind {
+	case 0:
 		// a leaf directly in a struct field may use map|FUNC; elsewhere only extend
 		if parent != nil && parent.Kind == "struct" {
 			return s.genLeaf()
 		}
 		return s.leafNoMap()
-	case x < 38:
+	case 1:
 		return &node{Kind: "basic", Basic: basics[r.IntN(len(basics))]}
-	case x < 44:
+	case 2:
 		n := &node{Kind: "nbasic", ID: s.id(), Basic: basics[r.IntN(len(basics))]}
 		s.NBasics[n.ID] = n.Basic
 		return n
-	case x < 60:
+	case 3:
 		return s.genStruct(depth)
-	case x < 72:
+	case 4:
 		e := s.gen(depth+1, nil)
 		if e.Kind == "ptr" && e.Elem.Kind == "ptr" {
 			return e
 		}
 		return &node{Kind: "ptr", Elem: e}
-	case x < 84:
+	case 5:
 		return &node{Kind: "slice", Elem: s.gen(depth+1, nil)}
-	case x < 94:
+	case 6:
 		k := &node{Kind: "basic", Basic: []string{"string", "int", "int64"}[r.IntN(3)]}
 		if r.IntN(4) == 0 {
 			k = &node{Kind: "nbasic", ID: s.id(), Basic: "string"}
@@ -182,14 +225,35 @@ func (s *Spec) gen(depth int, parent *node) *node {
 			s.KeyLeaf = true
 		}
 		return &node{Kind: "map", Key: k, Elem: s.gen(depth+1, nil)}
-	case x < 97:
+	case 7:
 		n := &node{Kind: "ustruct"}
-		nf := 1 + r.IntN(2)
+		nf := 1 + r.IntN(s.UFieldsMax)
 		for i := 0; i < nf; i++ {
-			n.Fields = append(n.Fields, &field{Name: fmt.Sprintf("U%d", i), TName: fmt.Sprintf("U%d", i), N: s.gen(depth+2, nil)})
+			var fn *node
+			if s.Prop == "C07" && r.IntN(100) < s.ULeafPct {
+				fn = s.leafNoMap()
+			} else {
+				fn = s.gen(depth+1, nil)
+			}
+			n.Fields = append(n.Fields, &field{Name: fmt.Sprintf("U%d", i), TName: fmt.Sprintf("U%d", i), N: fn})
 		}
 		return n
 	default:
+		// a reference to a struct declared earlier: an ancestor (recursion, through a
+		// pointer or slice) or any completed struct (the same named pair is then reachable
+		// from several methods)
+		if ids := sortedIDs(s.Structs); len(ids) > 0 && r.IntN(2) == 0 {
+			id := ids[r.IntN(len(ids))]
+			anc := false
+			for _, a := range s.structsAt {
+				if a == id {
+					anc = true
+				}
+			}
+			if !anc && len(s.Structs[id].Fields) > 0 {
+				return &node{Kind: "ref", ID: id}
+			}
+		}
 		if len(s.structsAt) > 0 {
 			ref := &node{Kind: "ref", ID: s.structsAt[r.IntN(len(s.structsAt))]}
 			if r.IntN(2) == 0 {
@@ -393,6 +457,11 @@ func (s *Spec) methods(twin bool) []methodSpec {
 			ms = append(ms, methodSpec{Name: fmt.Sprintf("Conv%d", id), In: fmt.Sprintf("S%d", id), Out: out(fmt.Sprintf("T%d", id)), Doc: doc})
 		}
 	}
+	for i := range ms {
+		if s.MethodSkip[ms[i].Name] {
+			ms[i].Doc = append(ms[i].Doc, "goverter:skipCopySameType")
+		}
+	}
 	sort.Slice(ms, func(i, j int) bool { return ms[i].Name < ms[j].Name })
 	return ms
 }
@@ -478,6 +547,54 @@ func (s *Spec) usesRuntime() bool {
 	}
 	for _, n := range s.Structs {
 		if n.MethodSrc || n.Ctor {
+			return true
+		}
+	}
+	return false
+}
+
+// exprsIn collects the source-side type expressions that occur in the conversion tree of a
+// type expression rooted at struct id.
+func (s *Spec) exprsIn(n *node, out map[string]bool, seen map[int]bool) {
+	out[s.expr(n, "S")] = true
+	switch n.Kind {
+	case "struct", "ref":
+		if seen[n.ID] {
+			return
+		}
+		seen[n.ID] = true
+		for _, f := range s.Structs[n.ID].Fields {
+			s.exprsIn(f.N, out, seen)
+		}
+	case "ustruct":
+		for _, f := range n.Fields {
+			s.exprsIn(f.N, out, seen)
+		}
+	case "ptr", "slice":
+		s.exprsIn(n.Elem, out, seen)
+	case "map":
+		s.exprsIn(n.Key, out, seen)
+		s.exprsIn(n.Elem, out, seen)
+	}
+}
+
+// SkipInvolved says whether skipCopySameType is involved in method m: set on the
+// converter, on m itself, or on another declared method whose source type occurs in m's
+// conversion tree (goverter calls declared methods wherever their types occur).
+func (s *Spec) SkipInvolved(m methodSpec) bool {
+	if s.SkipCopy || s.MethodSkip[m.Name] {
+		return true
+	}
+	id := 0
+	fmt.Sscanf(strings.TrimLeft(m.In, "[]*mapstring"), "S%d", &id)
+	root, ok := s.Structs[id]
+	if !ok {
+		return false
+	}
+	exprs := map[string]bool{m.In: true}
+	s.exprsIn(root, exprs, map[int]bool{})
+	for _, x := range s.methods(false) {
+		if x.Name != m.Name && s.MethodSkip[x.Name] && exprs[x.In] {
 			return true
 		}
 	}
